@@ -178,17 +178,18 @@ instance (o : Opts) (bytes : List Nat) (ops : List Op) : Decidable (Agree o byte
 API calls — chained sequences decoded, discarded, peeked and then decoded or discarded, `Next`, integrity checks followed
 by the re-seek, failed decodes, resets onto new readers with other options — every result the decoder object returns is
 the result the specification computes with new decoders only. Hypotheses: the streams are byte strings shorter than 4 GiB
-(`Decoder.cur` is a uint32), and no `PeekFileId` of the history reads past the data window of its sequence — the class of
+(`Decoder.cur` is a uint32), the factories' components are acyclic (`FacOK`: the contract of `decoder.Factory` — the real
+code recurses through them), and no `PeekFileId` of the history reads past the data window of its sequence — the class of
 the open finding F09 (KF-C07-2), outside of which the statement is unconditional. -/
-theorem C07_history_indep_partial (o : Opts) (bytes : List Nat) (ops : List Op) (hb : Small bytes)
+theorem C07_history_indep_partial (o : Opts) (bytes : List Nat) (ops : List Op) (hb : Small bytes) (hf : FacOK o.fac)
     (hops : ∀ op ∈ ops, OpSmall op) (hnp : NoPeekPast (Api.fresh o bytes) ops) : Agree o bytes ops := by
-  refine sim_run ops (Api.fresh o bytes) (Spec.fresh o bytes) ⟨rfl, hb, hb, ?_⟩ hops hnp
+  refine sim_run ops (Api.fresh o bytes) (Spec.fresh o bytes) ⟨rfl, ⟨hb, hf⟩, hb, ?_⟩ hops hnp
   show (_ ∧ _)
   exact ⟨rfl, rfl⟩
 
 /-- the full statement: no hypothesis about `PeekFileId` -/
 def C07_history_indep_full : Prop :=
-  ∀ (o : Opts) (bytes : List Nat) (ops : List Op), Small bytes → (∀ op ∈ ops, OpSmall op) → Agree o bytes ops
+  ∀ (o : Opts) (bytes : List Nat) (ops : List Op), Small bytes → FacOK o.fac → (∀ op ∈ ops, OpSmall op) → Agree o bytes ops
 
 /-! ### witnesses -/
 
@@ -205,10 +206,12 @@ theorem small_of_decide (l : List Nat) (h : (l.all (· < 256) && decide (l.lengt
   simp only [Bool.and_eq_true, List.all_eq_true, decide_eq_true_eq] at h
   exact ⟨fun b hb => h.1 b hb, h.2⟩
 
+theorem facOK_nil : FacOK [] := ⟨fun _ _ => 0, fun _ _ => (by decide : (0 : Nat) < 256), by intro e he; cases he⟩
+
 /-- … so the full statement is false on the pinned tree -/
 theorem C07_full_fails : ¬ C07_history_indep_full := by
   intro h
-  exact C07_witness_peek_past (h {} (Q ++ P) [.peekFileId, .decode] (small_of_decide _ (by decide))
+  exact C07_witness_peek_past (h {} (Q ++ P) [.peekFileId, .decode] (small_of_decide _ (by decide)) facOK_nil
     (by intro op hop; simp only [List.mem_cons, List.mem_nil_iff, or_false] at hop; rcases hop with rfl | rfl <;> trivial))
 
 /-- Non-vacuity of `C07_history_indep_partial`: histories with peeks, discards, an integrity check and a reset meet its
@@ -216,7 +219,7 @@ hypotheses (and the witnesses of the two repaired defects F08 and F10 now agree 
 example : Small (P ++ S) ∧ NoPeekPast (Api.fresh {} (P ++ S)) [.peekFileId, .discard, .decode] ∧
     NoPeekPast (Api.fresh {} (P ++ B ++ S)) [.checkIntegrity, .next, .peekFileId, .decode, .decode, .reset {} S, .decode] ∧
     OpSmall (.reset {} S) :=
-  ⟨small_of_decide _ (by decide), by decide, by decide, small_of_decide _ (by decide)⟩
+  ⟨small_of_decide _ (by decide), by decide, by decide, small_of_decide _ (by decide), facOK_nil⟩
 
 example : Agree {} (P ++ S) [.peekFileId, .discard, .decode] ∧ Agree {} P [.peekFileId, .reset {} S, .decode] ∧
     Agree {} (P ++ B ++ S) [.checkIntegrity, .decode] := by decide
@@ -224,11 +227,11 @@ example : Agree {} (P ++ S) [.peekFileId, .discard, .decode] ∧ Agree {} P [.pe
 /-- **A sequence a new decoder rejects is rejected in every context** (corollary): if the specification says that the
 `Decode` at position `i` of the history must fail with `e` — i.e. a decoder created on exactly the bytes of that sequence
 fails with `e` — then the decoder object fails with `e` there, whatever preceded. -/
-theorem C07_rejected_everywhere_partial (o : Opts) (bytes : List Nat) (ops : List Op) (hb : Small bytes)
+theorem C07_rejected_everywhere_partial (o : Opts) (bytes : List Nat) (ops : List Op) (hb : Small bytes) (hf : FacOK o.fac)
     (hops : ∀ op ∈ ops, OpSmall op) (hnp : NoPeekPast (Api.fresh o bytes) ops) (i : Nat) (e : Err) (evs : List Event)
     (hspec : (specRun (Spec.fresh o bytes) ops)[i]? = some (some (.err e, evs))) :
     (run (Api.fresh o bytes) ops)[i]? = some (.err e, evs) := by
-  have hag := C07_history_indep_partial o bytes ops hb hops hnp
+  have hag := C07_history_indep_partial o bytes ops hb hf hops hnp
   have hlen : ∀ (ops : List Op) (a : Api) (p : Spec), (run a ops).length = (specRun p ops).length := by
     intro ops
     induction ops with
